@@ -52,7 +52,7 @@ D_POST = """proof { let accs = choose|accs: Seq<u128>| #[trigger] try_fold_decid
             }
         } }"""
 UNIT = Unit(
-    name="batch", rlimit=30, lemma_obs=['lemma_batch_core_perm', 'lemma_marker_kept', 'lemma_faucet_once', 'lemma_markers_batch'], uses="group_core_axioms",
+    name="batch", lemma_obs=['lemma_batch_core_perm', 'lemma_marker_kept', 'lemma_faucet_once', 'lemma_markers_batch'], uses="group_core_axioms",
     prelude=["core.rs", "raw.rs", "iter.rs", "crypto.rs", "state_abs.rs", "melvm_abs.rs", "txmethods.rs", "num.rs", "melpow.rs"],
     lemmas=["sums.rs", "iterlem.rs", "coinsview.rs", "header.rs", "txroot_opaque.rs", "seal_opaque.rs", "tips.rs", "supply.rs", "apply.rs", "supply_batch.rs", "apply_c04.rs", "microergs.rs", "chaininv.rs", "dosc.rs", "stateinv.rs", "batch_def.rs", "supply_thm.rs", "feemul.rs", "sealenv_opaque.rs", "seal_def.rs"],
     items=[
